@@ -315,7 +315,7 @@ pub fn run(ctx: &Ctx) {
         vs.dedup_by_key(|v| v.sig());
         ctx.report("c14.default", json!({"case": "default-objects"}), vs);
     }
-    ctx.set_rule("every object produced by the table generators of C01-C05/C11/C12 (whole tables, every entry/node/structure on its own, GAS, notification and resource sub-structures) and by the AML generator of C06 is serialised twice into the vector sink and once into: a sink implementing only byte(), a sink overriding all five methods (logging the call pattern), the checksum sink, the generic-table sink and the package-builder sink; the concatenated bytes must be identical everywhere, Checksum.raw_value() and u8sum() must equal the arithmetic byte sum, and for every structure that can be added through its raw in-memory form as_bytes() must equal the serialised bytes. Non-trivial = object whose serialisation uses >= 2 different sink entry points; distinct by hash.");
+    ctx.set_rule("every object produced by the table generators of C01-C05/C11/C12 (whole tables, every entry/node/structure on its own, GAS, notification and resource sub-structures) and by the AML generator of C06 is serialised twice into the vector sink and once into: a sink implementing only byte(), a sink overriding all five methods (logging the call pattern), the checksum sink, the generic-table sink and the package-builder sink; the concatenated bytes must be identical everywhere, Checksum.raw_value() and u8sum() must equal the arithmetic byte sum, and for every structure that can be added through its raw in-memory form as_bytes() must equal the serialised bytes. Non-trivial = object whose serialisation uses >= 2 different sink entry points; distinct by hash. History independence: the final image of a table must not depend on whether it was serialised between operations, and a package builder (object and sink at once) must serialise to the same bytes whether or not it was serialised between calls (all call sequences of length <= 4 over {element u8, element u64, sink byte, sink slice} x every subset of intermediate serialisations).");
     let seed = ctx.seed;
     let progs = directed_programs(&ALL_KINDS, seed);
     let cases: Vec<Case> = progs.into_iter().map(Case::Table).collect();
